@@ -93,8 +93,8 @@ class DispDouble:
             mode = self.spec["enter"]
             if mode.startswith("susp"):
                 await r.w.pause(f"{self.name}.enter")
-            if mode.endswith("raise"):
-                exc = DispErr(f"{self.name}.enter")
+            if mode.endswith("raise") or mode.endswith("raise_base"):
+                exc = DispErr(f"{self.name}.enter") if mode.endswith("raise") else DispBase(f"{self.name}.enter")
                 r.disp_errors.append(exc)
                 raise exc
             y = self.spec.get("yields", "none")
@@ -123,7 +123,7 @@ class DispDouble:
         except asyncio.CancelledError:
             r.ev("d-enter-end", self.name, "cancelled")
             raise
-        except DispErr:
+        except (DispErr, DispBase):
             r.ev("d-enter-end", self.name, "raise")
             raise
         finally:
